@@ -183,6 +183,12 @@ extern "C" void h_scan() {
 #ifndef SIGN
 #define SIGN 0
 #endif
+#ifndef PFX
+#define PFX ""
+#endif
+// The leading digits are pinned to PFX (a window around a boundary); the remaining ND - strlen(PFX) digits are symbolic.
+// Fully symbolic 19..21-digit numerals were not decided by any back end within 200 s (Horner over 19 symbolic digits).
+static const char pfx[] = PFX;
 extern "C" void h_int() {
     const unsigned sl = (SIGN != 0) ? 1U : 0U, n = sl + ND;
     C *b = vf_buf<C>(n);
@@ -193,16 +199,20 @@ extern "C" void h_int() {
     while (i < ND) {
         const C c = b[sl + i];
         vf_assume(is_digit(c) && (i != 0U || c != C('0')));
-        if (i < 19U) W = W * 10U + u64(c - C('0'));
+        if (i + 1U < sizeof(pfx)) vf_assume(c == C(pfx[i]));
+        if (i < 19U) { W *= 10U; W += u64(c); W -= u64('0'); }      // same association as the code's accumulation
         ++i;
     }
     const bool neg = (SIGN == 1);
-    bool fits = true; u64 M = W;    // does the whole numeral fit 64 bits?
-    if (ND == 20) {
-        const u64 last = u64(b[sl + 19U] - C('0'));
-        fits = (W < 1844674407370955161ULL) || (W == 1844674407370955161ULL && last <= 5U);
-        if (fits) M = W * 10U + last;
-    } else if (ND > 20) fits = false;
+    // do the first 20 digits fit 64 bits?  (the code extends its 19-digit window by one digit when they do)
+    bool fits20 = false; u64 M = W;
+    if (ND >= 20) {
+        const u64 d20 = u64(b[sl + 19U] - C('0'));
+        fits20 = (W < 1844674407370955161ULL) || (W == 1844674407370955161ULL && d20 <= 5U);
+        if (fits20) M = W * 10U + d20;
+    }
+    const bool fits = (ND <= 19) || (ND == 20 && fits20);       // the whole numeral fits 64 bits
+    const unsigned used = (ND >= 20 && fits20) ? 20U : 19U;     // digits in the mantissa handed to the kernel
     const bool int64_min = neg && fits && M == 0x8000000000000000ULL;
 #ifdef KF_EXCL_C09_int64_min_real
     vf_assume(!int64_min);
@@ -228,7 +238,7 @@ extern "C" void h_int() {
             vf_assert(g_calls == 1 && !g_negk, 7);
             // the kernel gets the 19-digit window and the number of digits cut off; or the exact 20-digit value and 0
             if (fits) vf_assert(g_m == M && g_exp == 0U, 8);
-            else vf_assert(g_m == W && g_exp == ND - 19U, 9);
+            else vf_assert(g_m == M && g_exp == ND - used, 9);
             vf_assert(bits == (g_out | (neg ? 0x8000000000000000ULL : 0ULL)), 10);
         } else {
             vf_assert((bits >> 63) == (neg ? 1ULL : 0ULL), 11);
